@@ -13,6 +13,7 @@ RULE = ('cases = EAM models: every ordered subset of {Al,Cu,Fe,Ni} (size 1..3 qu
         'under-specified embedding sets x grid x route {class, writeSetFL, Configuration.read, potable} x target spelling; plus '
         'two-model histories; every case executed; non-trivial = >= 2 elements or >= 1 declared pair (all functions distinct '
         'per element/pair so any mis-routing changes a number)')
+RULE += '; label models (anagram labels, 8-character labels, numbers of different digit counts, element lines of very different lengths), pair potentials of species without EAM functions, comments= lists of 0..5 entries, EAMPotential objects whose functions are assigned after construction, numpy-returning callables, [Species] written property-major / interleaved, (nr, nrho) up to (20001, 50000)'
 ASSUMPTIONS = [
     'setfl token-stream layout as LAMMPS pair_style eam/alloy reads it (mc/readers/eam.py)',
     'reference closed forms for polynomial/bornmayer/morse; tolerance 1e-9 relative + 1e-13 absolute on %20.16e numbers',
